@@ -30,7 +30,7 @@ from ..core import Ctx, MachineryError, chunks, load_known_findings
 
 BAD, CYCLIC = [0], [0, 0]
 IFACE = 99          # MRO.tla IFACE: the member as declared by the interface I
-INVARIANTS = ["MroIsC3", "InconsistentReported", "RefLaws", "FindIsLookup", "InheritedTable", "PageTables", "OverridesNote",
+INVARIANTS = ["MroIsC3", "InconsistentReported", "RefLaws", "FindIsLookup", "BodyLookupIsLexical", "InheritedTable", "PageTables", "OverridesNote",
               "SourcesAreOverridden", "DocIsInherited",
               "EarlyIsLookupOrKF"]
 KF_EARLY = "early-lookup-depth-first"
@@ -82,7 +82,7 @@ def layout_of(rec: Dict[str, Any]) -> Dict[str, Any]:
 
 def early_classes(rec: Dict[str, Any]) -> List[int]:
     """classes through which `C.f` is a legal Python expression (spec: consistent and the lookup finds a definition)"""
-    if rec.get("early", "none") == "none":
+    if rec.get("early", "none") in ("none", "shadow"):
         return []
     return [c for c in range(1, rec["n"] + 1) if rec["c3"][c - 1] not in (BAD, CYCLIC) and rec["find_ref"][c - 1]]
 
@@ -108,14 +108,27 @@ def render_case(h: int, rec: Dict[str, Any]) -> Dict[str, Any]:
             if c in impl:
                 lines.append(f"@implementer(I{h})")
             lines.append(f"class {cname(c)}({', '.join(bs)}):" if bs else f"class {cname(c)}:")
-            lines += body_lines(cname(c), member[c - 1], nested=(early == "nested"))
+            if early == "names":
+                # the class binds f by a nested class ("nodoc") or by an alias written in its body ("doc"), or not at all;
+                # then a bare `f` is used in the class body: Python looks it up in the body, then in the module
+                if member[c - 1] == "nodoc":
+                    lines += ["    class f:", "        pass"]
+                elif member[c - 1] != "absent":
+                    lines.append(f"    f = A{h}_{c}")
+                lines += ["    class Y(f):", "        pass"]
+            else:
+                lines += body_lines(cname(c), member[c - 1], nested=(early == "nested"))
         # early dotted lookups through every class Python can look the member up in, AFTER the class statements:
         # they are evaluated while the module is analysed, before any MRO is computed
         for c in early_classes(rec):
             if early == "alias":
                 lines.append(f"a{h}_{c} = {cname(c)}.f")
-            elif early == "nested":
+            elif early in ("nested", "names"):
                 lines += [f"class X{h}_{c}({cname(c)}.f):", "    pass"]
+        if early == "names":       # the alias targets, defined before the hierarchy
+            pre = [f"class A{h}_{c}: pass" for c in range(1, n + 1) if member[c - 1] not in ("absent", "nodoc")]
+            lines = pre + lines
+            where = {c: (mk, cn, ln + len(pre)) for c, (mk, cn, ln) in where.items()}
         return {"modules": [(None, lines)], "where": where}
     if lay["kind"] == "graph":
         # one class per module, plain `import`: no processing is triggered, modules are processed in the order added
@@ -164,11 +177,19 @@ def render_case(h: int, rec: Dict[str, Any]) -> Dict[str, Any]:
             back = [x for (bc, x) in rec["lay"]["back"] if bc == c]
             if back:
                 lines += ["from typing import TYPE_CHECKING", "if TYPE_CHECKING:"] + [f"    import l{h}_m{x}" for x in back]
-            lines += [f"import l{h}_m{b}" for b in sorted(set(bases[c - 1]))]
-            bs = [f"l{h}_m{b}.{cname(b)}" + ("[int]" if subscripted(h, c, j) else "") for j, b in enumerate(bases[c - 1])]
+            if early == "shadow":
+                # the bases are imported BY NAME and the first of those names is bound again, after the class statement,
+                # to a class of this module deriving from it: `from m import B ; class C(B) ; class B(B)`
+                lines += [f"from l{h}_m{b} import {cname(b)}" for b in sorted(set(bases[c - 1]))]
+                bs = [cname(b) + ("[int]" if subscripted(h, c, j) else "") for j, b in enumerate(bases[c - 1])]
+            else:
+                lines += [f"import l{h}_m{b}" for b in sorted(set(bases[c - 1]))]
+                bs = [f"l{h}_m{b}.{cname(b)}" + ("[int]" if subscripted(h, c, j) else "") for j, b in enumerate(bases[c - 1])]
             where[c] = (mn, cname(c), len(lines) + 1)
             lines.append(f"class {cname(c)}({', '.join(bs)}):" if bs else f"class {cname(c)}:")
             lines += body_lines(cname(c), member[c - 1], nested=(early == "nested"))
+            if early == "shadow" and bases[c - 1]:
+                lines += [f"class {cname(bases[c - 1][0])}({cname(bases[c - 1][0])}):", "    pass"]
             if c in early_classes(rec):
                 if early == "alias":
                     lines.append(f"a{h}_{c} = {cname(c)}.f")
@@ -274,6 +295,21 @@ def render_segments(h: int, rec: Dict[str, Any], python: bool) -> Dict[str, Any]
 
 
 # ------------------------------------------------------------------------------ the real pydoctor on a batch
+def binding_code(obj: Any, h: int, ix: Any) -> int:
+    """variant "names": c for the nested class K_c.f, 100 + c for the alias target A_c, 200 for the module-level f"""
+    if obj is None:
+        return -1
+    if obj.name == "f":
+        return 200 if obj.parent is obj.module else ix(obj.parent)
+    m_ = re.match(rf"^A{h}_(\d+)$", obj.name)
+    return 100 + int(m_.group(1)) if m_ else -1
+
+
+def binding_target(member: List[str], c: int) -> int:
+    """what class c binds f to (variant "names"): its nested class, or the target of its alias"""
+    return c if member[c - 1] == "nodoc" else 100 + c
+
+
 def observe_batch(batch: List[Tuple[int, Dict[str, Any]]]) -> List[Dict[str, Any]]:
     """Build all cases of the batch in ONE System; return what the real code says per case."""
     from pydoctor import model, epydoc2stan
@@ -302,7 +338,7 @@ def observe_batch(batch: List[Tuple[int, Dict[str, Any]]]) -> List[Dict[str, Any
             return super().privacyClass(ob)
 
     shared = "b%d" % batch[0][0]
-    shared_lines: List[str] = ["from zope.interface import Interface, implementer"]
+    shared_lines: List[str] = ["from zope.interface import Interface, implementer", "class f: pass"]
     modules: List[Tuple[str, List[str]]] = []
     wheres = []
     for h, rec in batch:
@@ -325,7 +361,7 @@ def observe_batch(batch: List[Tuple[int, Dict[str, Any]]]) -> List[Dict[str, Any
     system.hidden_names = {f"{where[c][0]}.{where[c][1]}.f" for (h, rec), where in zip(batch, wheres)
                            for c in range(1, rec["n"] + 1) if rec["member"][c - 1] == "hidden"}
     builder = system.systemBuilder(system)
-    if len(shared_lines) > 1:
+    if len(shared_lines) > 2:
         builder.addModuleString("\n".join(shared_lines) + "\n", modname=shared)
     for mname, lines in modules:
         builder.addModuleString("\n".join(lines) + "\n", modname=mname)
@@ -396,7 +432,7 @@ def observe_batch(batch: List[Tuple[int, Dict[str, Any]]]) -> List[Dict[str, Any
         # rendering history: the members' docstrings are rendered one after the other (ascending class order for even
         # cases, descending for odd ones); what is rendered must not depend on what was rendered before
         o_render = [0] * n
-        if rec.get("early", "none") != "nested":
+        if rec.get("early", "none") not in ("nested", "names"):
             for c in (range(1, n + 1) if h % 2 == 0 else range(n, 0, -1)):
                 own = objs[c].contents.get("f") if isinstance(objs[c], model.Class) else None
                 if own is None:
@@ -415,6 +451,12 @@ def observe_batch(batch: List[Tuple[int, Dict[str, Any]]]) -> List[Dict[str, Any
                     for t in ClassPage(objs[c], lookup_).baseTables(None, _tags.div):
                         nm = flatten_text(t.slotData["baseName"]).split(" (via")[0].strip()
                         o_page[c - 1].append(byname.get(nm, -1))
+        o_body = [0] * n          # variant "names": what the bare `f` in the body of each class is bound to
+        if rec.get("early") == "names":
+            for c in range(1, n + 1):
+                y = system.allobjects.get(f"{where[c][0]}.{where[c][1]}.Y")
+                bo = y.baseobjects if isinstance(y, model.Class) else []
+                o_body[c - 1] = binding_code(bo[0], h, ix) if len(bo) == 1 else -1
         o_early = [0] * n
         for c in early_classes(rec):
             modname = where[c][0]
@@ -425,10 +467,13 @@ def observe_batch(batch: List[Tuple[int, Dict[str, Any]]]) -> List[Dict[str, Any
             else:
                 x = system.allobjects.get(f"{modname}.X{h}_{c}")
                 bo = x.baseobjects if isinstance(x, model.Class) else []
+                if rec["early"] == "names":
+                    o_early[c - 1] = binding_code(bo[0], h, ix) if len(bo) == 1 else -1
+                    continue
                 o_early[c - 1] = ix(bo[0].parent) if (len(bo) == 1 and bo[0] is not None) else -1
                 if o_early[c - 1] > 0 and [id(y) for y in x.mro()] != [id(x), id(bo[0])]:
                     o_early[c - 1] = -1
-        out.append({"h": h, "early": o_early, "render": o_render, "page": o_page, "mro": o_mro, "warn": o_warn, "find": o_find, "src": o_src, "doc": o_doc,
+        out.append({"h": h, "body": o_body, "early": o_early, "render": o_render, "page": o_page, "mro": o_mro, "warn": o_warn, "find": o_find, "src": o_src, "doc": o_doc,
                     "doctext": o_doctext, "inherited": o_inh, "overrides": o_ovr, "first": o_first, "present": o_present,
                     "where": {str(c): list(w) for c, w in where.items()}})
     return out
@@ -530,6 +575,8 @@ def evaluate_case(rec: Dict[str, Any], obs: Dict[str, Any]) -> Tuple[List[Tuple[
     failed: List[Tuple[str, int, Any, Any]] = []
     drift: List[Tuple[str, int, Any, Any]] = []
     nested = rec.get("early", "none") == "nested"     # the member is a class: docsources / docstring inheritance do not apply
+    if rec.get("early") == "names":
+        return evaluate_names(rec, obs)
     for c in range(1, n + 1):
         i = c - 1
         ref = rec["c3"][i]
@@ -601,6 +648,36 @@ def evaluate_case(rec: Dict[str, Any], obs: Dict[str, Any]) -> Tuple[List[Tuple[
     return failed, drift
 
 
+def evaluate_names(rec: Dict[str, Any], obs: Dict[str, Any]) -> Tuple[List[Tuple[str, int, Any, Any]], List[Tuple[str, int, Any, Any]]]:
+    """variant "names" (member = nested class / alias in the class body): the order, what `C.f` written after the classes
+    designates (first binding along the MRO) and what a bare `f` in the body of C designates (C's own binding, else the
+    module's f = 200)."""
+    failed: List[Tuple[str, int, Any, Any]] = []
+    drift: List[Tuple[str, int, Any, Any]] = []
+    member = rec["member"]
+    tgt = lambda b: binding_target(member, b) if b else 200
+    for c in range(1, rec["n"] + 1):
+        i = c - 1
+        ref, real = rec["c3"][i], obs["mro"][i]
+        if not real:
+            failed.append(("StillDocumented", c, "class", real))
+            continue
+        if ref not in (BAD, CYCLIC):
+            if real != ref or obs["warn"][i] != "none":
+                failed.append(("MroIsC3", c, ref, {"mro": real, "warn": obs["warn"][i]}))
+            if c in early_classes(rec) and obs["early"][i] != tgt(rec["find_ref"][i]):
+                failed.append(("NameThroughClassIsLookup", c, tgt(rec["find_ref"][i]), obs["early"][i]))
+        if obs["body"][i] != tgt(rec["body_ref"][i]):
+            failed.append(("ClassBodyLookupIsLexical", c, tgt(rec["body_ref"][i]), obs["body"][i]))
+        if real != rec["mro"][i] or obs["warn"][i] != rec["warn"][i]:
+            drift.append(("mro", c, rec["mro"][i], real))
+        if c in early_classes(rec) and obs["early"][i] != tgt(rec["early_pd"][i]):
+            drift.append(("name_through_class", c, tgt(rec["early_pd"][i]), obs["early"][i]))
+        if obs["body"][i] != tgt(rec["body_pd"][i]):
+            drift.append(("class_body_lookup", c, tgt(rec["body_pd"][i]), obs["body"][i]))
+    return failed, drift
+
+
 def judge_case(ctx: Ctx, rec: Dict[str, Any], obs: Dict[str, Any], origin: str) -> Tuple[int, int]:
     failed, drift = evaluate_case(rec, obs)
     if failed:
@@ -610,8 +687,9 @@ def judge_case(ctx: Ctx, rec: Dict[str, Any], obs: Dict[str, Any], origin: str) 
                        "case": {k: rec[k] for k in ("n", "bases", "member", "born", "early", "lay") if k in rec} | {"layout": rec.get("layout"), "h": obs["h"]},
                        "reference": {"c3": rec["c3"], "own": rec["own"], "find_ref": rec["find_ref"], "inh_ref": rec["inh_ref"], "ovr_ref": rec["ovr_ref"], "page_ref": rec["page_ref"],
                                      "src_ref": rec["src_ref"], "doc_ref": rec["doc_ref"]},
-                       "observed": {k: obs[k] for k in ("mro", "warn", "find", "src", "doc", "inherited", "overrides", "early", "render", "page")},
-                       "model": {"early_pd": rec.get("early_pd"), "early_base_pd": rec.get("early_base_pd"), "late": rec.get("late")},
+                       "observed": {k: obs[k] for k in ("mro", "warn", "find", "src", "doc", "inherited", "overrides", "early", "render", "page", "body")},
+                       "model": {"early_pd": rec.get("early_pd"), "early_base_pd": rec.get("early_base_pd"), "late": rec.get("late"),
+                                 "body_pd": rec.get("body_pd"), "body_ref": rec.get("body_ref")},
                        "key": f"{origin}:{sorted(set(a for a, _, _, _ in failed))}:{rec['bases']}:{rec['member'] if origin != 'enum' else ''}"[:300]})
     if drift and (not failed or any(d[0] == "early_lookup" for d in drift)):
         ctx.drift_note({"origin": origin, "bases": rec["bases"], "member": rec["member"], "born": rec["born"],
@@ -860,14 +938,19 @@ def run(ctx: Ctx) -> int:
     pick4 = (lambda lst, par: [r for i, r in enumerate(lst) if i % 4 == par]) if ctx.quick else (lambda lst, par: lst)
     m_alias = [dict(r, early="alias") for r in pick4(members, 0)]
     m_nested = [dict(r, early="nested") for r in pick4(members, 2)]
+    # names: the member as a nested class / an alias in the class body, `C.f` and a bare `f` in class bodies resolved
+    m_names = [dict(r, early="names") for r in pick4(members, 1)]
+    # shadow: bases imported by name and the name bound again afterwards, where the second pass resolves them
+    l_shadow = [dict(r, early="shadow") for r in late[::2]]         # every other case in both tiers
     l_alias = [dict(r, early="alias") for r in pick(late, 0)]
     l_nested = [dict(r, early="nested") for r in pick(late, 1)]
-    all_cases = enum + members + graph + file_cases + file_graphs + m_alias + m_nested + l_alias + l_nested + zope + split + hidden
+    all_cases = enum + members + graph + file_cases + file_graphs + m_alias + m_nested + l_alias + l_nested + zope + split + hidden + m_names + l_shadow
     origins = (["enum"] * len(enum) + ["members"] * len(members) + ["graph"] * len(graph)
                + ["modules"] * len(file_cases) + ["graph-random"] * len(file_graphs)
                + ["members-alias"] * len(m_alias) + ["members-nested"] * len(m_nested)
                + ["late-alias"] * len(l_alias) + ["late-nested"] * len(l_nested)
-               + ["zope"] * len(zope) + ["split"] * len(split) + ["hidden"] * len(hidden))
+               + ["zope"] * len(zope) + ["split"] * len(split) + ["hidden"] * len(hidden)
+               + ["members-names"] * len(m_names) + ["late-shadow"] * len(l_shadow))
     # ---- the spec's reference against CPython (machinery)
     quirk = cross_check_cpython(ctx, enum + members + file_cases + late + zope + split + hidden)
     ctx.extra["cpython_type_cross_checked_cases"] = len(enum) + len(members) + len(file_cases) + len(late) + len(zope) + len(split)
@@ -970,6 +1053,8 @@ def replay(ctx: Ctx, path: str) -> int:
     rec["late"] = (w.get("model") or {}).get("late") or [False] * case["n"]
     for k in ("early_pd", "early_base_pd"):
         rec[k] = (w.get("model") or {}).get(k) or w["observed"].get("early", [])
+    for k in ("body_pd", "body_ref"):
+        rec[k] = (w.get("model") or {}).get(k) or [0] * case["n"]
     if case.get("layout"):
         rec["layout"] = case["layout"]
     obs = observe_batch([(case["h"], rec)])[0]
